@@ -142,8 +142,25 @@ func init() {
 		ex.hbJoin(ex.cur, w.vc)
 		return nil
 	})
+	// sync.Pool: a LIFO free list per pool (what a single P does between two
+	// collections); an object that was Put is handed out again by the next Get,
+	// so that state left in a recycled object is visible to the code under test.
+	type poolState struct{ free []value }
+	poolOf := func(ex *Exec, p *value) *poolState {
+		if s, ok := ex.sideTab[p].(*poolState); ok {
+			return s
+		}
+		s := &poolState{}
+		ex.sideTab[p] = s
+		return s
+	}
 	reg("(*sync.Pool).Get", func(ex *Exec, fr *frame, a []value) value {
 		p := a[0].(*value)
+		if ps := poolOf(ex, p); len(ps.free) > 0 {
+			x := ps.free[len(ps.free)-1]
+			ps.free = ps.free[:len(ps.free)-1]
+			return x
+		}
 		st := (*p).(structure)
 		// field "New" is the last field of sync.Pool
 		newf := st[len(st)-1]
@@ -152,7 +169,14 @@ func init() {
 		}
 		return ex.call(fr, newf, nil)
 	})
-	reg("(*sync.Pool).Put", func(ex *Exec, fr *frame, a []value) value { return nil })
+	reg("(*sync.Pool).Put", func(ex *Exec, fr *frame, a []value) value {
+		if i, ok := a[1].(iface); ok && i.t == nil {
+			return nil
+		}
+		ps := poolOf(ex, a[0].(*value))
+		ps.free = append(ps.free, a[1])
+		return nil
+	})
 
 	// ---- sync/atomic: single baton => plain loads and stores are atomic -----
 	for _, tn := range []string{"Int32", "Int64", "Uint32", "Uint64", "Uintptr"} {
